@@ -170,6 +170,9 @@ func (c *corpus) prepare(cs *corpusSchema, rng *RNG) {
 	if err != nil {
 		cs.GenErr = fmt.Errorf("reference validator rejects the rendered schema (generator defect, case discarded): %w", err)
 		c.r.Count("corpus.schema_discarded_by_reference_validator", 1)
+		if os.Getenv("VERIF_DEBUG") != "" {
+			fmt.Printf("DEBUG schema discarded %s %s objs=%d: %v\n", cs.ID, cs.Format, len(cs.AM.Objs), err)
+		}
 		return
 	}
 	cs.Validator = v
@@ -225,7 +228,11 @@ func (c *corpus) prepare(cs *corpusSchema, rng *RNG) {
 		if o.T.K != "struct" && o.T.K != "union" {
 			continue
 		}
-		for _, d := range dg.validDocs(o, c.opts.DocsPerObj) {
+		nDocs := c.opts.DocsPerObj
+		if cs.AM.Tags["aimed"] > 0 {
+			nDocs = 400 // fixed schemas are small: keep every variant docgen derives (one per member and value)
+		}
+		for _, d := range dg.validDocs(o, nDocs) {
 			if err := cs.Validator.Validate(o.Name, d.JSON()); err != nil {
 				cs.Discards++
 				c.r.Count("corpus.docs_discarded_by_reference_validator", 1)
